@@ -9,6 +9,8 @@
    CONV sig kore                         -> OK <pat> | <meta names> | <sort names>      or NONE
    GEN  sig <nax> kore* kore <nitems> item*
                                          -> OK A <pats> C <pats> P <conclusions of the proof expressions>   or NONE
+   HINTS sig <n> hint...   with hint = before after kind(R or Q) ordinal rule <nd> then nd pairs (id pat)
+                                         -> as GEN (ExecutionProofExp.from_proof_hints on hint objects)
    pat printed in prefix form: I l r, A l r, X<n> p, U<n> p, e<n>, s<n>, m<n>, y<hex>            *)
 module M = K_model
 
@@ -81,6 +83,28 @@ let p_item st = match next st with
   | "O" -> M.TOther
   | _ -> raise Bad
 
+let num t = int_of_string (String.sub t 1 (String.length t - 1))
+let rec p_pat st =
+  let t = next st in
+  match t.[0] with
+  | 'I' -> let l = p_pat st in let r = p_pat st in M.PImp (l, r)
+  | 'A' -> let l = p_pat st in let r = p_pat st in M.PApp (l, r)
+  | 'X' -> let x = num t in M.PEx (n_of_int x, p_pat st)
+  | 'U' -> let x = num t in M.PMu (n_of_int x, p_pat st)
+  | 'e' -> M.PEVar (n_of_int (num t))
+  | 's' -> M.PSVar (n_of_int (num t))
+  | 'm' -> M.PMeta (n_of_int (num t))
+  | 'y' -> M.PSym (cstr (String.sub t 1 (String.length t - 1)))
+  | _ -> raise Bad
+
+let p_hint st =
+  let before = p_pat st in let after = p_pat st in
+  let kind = (match next st with "R" -> M.RRewrite | "Q" -> M.REquational | _ -> raise Bad) in
+  let o = next_int st in let rp = p_pat st in
+  let nd = next_int st in
+  let d = times nd (fun () -> let i = next_int st in let q = p_pat st in (n_of_int i, q)) in
+  { M.h_before = before; h_after = after; h_rule = { M.r_kind = kind; r_ordinal = n_of_int o; r_pat = rp }; h_subst = d }
+
 let rec show_pat b p = match p with
   | M.PEVar n -> Buffer.add_string b (Printf.sprintf "e%d" (int_of_n n))
   | M.PSVar n -> Buffer.add_string b (Printf.sprintf "s%d" (int_of_n n))
@@ -105,6 +129,14 @@ let run line =
       let sg = p_sig st in let k = p_kore st in
       (match M.convert sg M.scope0 k with
        | Some (sc, p) -> Printf.sprintf "OK %s | %s | %s" (pat_str p) (names_str sc.M.sc_meta) (names_str sc.M.sc_sort)
+       | None -> "NONE")
+  | "HINTS" ->
+      let sg = p_sig st in
+      let n = next_int st in let hs = times n (fun () -> p_hint st) in
+      (match M.from_hints !guards sg hs with
+       | Some m ->
+           Printf.sprintf "OK A %s C %s P %s" (pats_str m.M.m_axioms) (pats_str m.M.m_claims)
+             (pats_str (List.map (fun (a, d) -> M.inst d a) m.M.m_proofs))
        | None -> "NONE")
   | "GEN" | "GEN2" ->
       let sg = p_sig st in
